@@ -1,6 +1,6 @@
 (* C03 — a process crash loses nothing that was flushed (record granularity; byte-level scan lemmas below). *)
 From Coq Require Import List NArith PeanoNat.
-From STH Require Import Log Lex Index Store IndexStore Refine Full2 Codec Crash Crash2 Crash8 Scanb Statements Statements2.
+From STH Require Import Log Lex Index Store IndexStore Refine Full2 Codec Crash Crash2 Crash8 Scanb Trimb Statements Statements2.
 Import ListNotations.
 Open Scope N_scope.
 
@@ -43,3 +43,19 @@ Theorem C03_scan_stops_at_torn_tail :
     ([], if Nat.ltb j 4 then ShortPrefix j else ShortRecord, consumed).
 Proof. exact scan_torn_tail. Qed.
 Print Assumptions C03_scan_stops_at_torn_tail.
+
+(* ---- the primary side of the recovery, byte level: Open walks the size prefixes of the last primary file and cuts the file
+   where the complete records end ([trim_len] = the new length).  A file of complete records - live, deleted, merged - is kept
+   whole, and ANY proper non-empty byte prefix of one more record (a write a crash stopped at any byte) is cut off, so that the
+   records written after the restart follow complete records and GC can read the file as a chain. ---- *)
+Theorem C03_primary_trim_keeps_complete_records :
+  forall l : list pslot, Forall pslot_ok l -> trim_len (length l + 1) (enc_pfile l) 0 = length (enc_pfile l).
+Proof. exact trim_file_whole. Qed.
+Print Assumptions C03_primary_trim_keeps_complete_records.
+
+Theorem C03_primary_trim_cuts_a_torn_record :
+  forall (l : list pslot) (k v : bytes) (j : nat),
+    Forall pslot_ok l -> pslot_ok (PLive k v) -> (0 < j)%nat -> (j < length (enc_pslot (PLive k v)))%nat ->
+    trim_len (length l + 1) (enc_pfile l ++ firstn j (enc_pslot (PLive k v))) 0 = length (enc_pfile l).
+Proof. exact trim_file_torn. Qed.
+Print Assumptions C03_primary_trim_cuts_a_torn_record.
